@@ -160,3 +160,38 @@ package os
 //@ func (*VirtualOS).WalkDir
 //@ props C13
 //@ requires vosInv(osObj)
+
+// ---- C12: the OS travels in the context ---------------------------------------------------------------------
+// Assumed model of package context: a context is an immutable key/value chain.
+//   ctx.val(c, k)   the value Value(k) returns for context c
+//@ external context.WithValue
+//@ requires key != nil
+//@ modifies nothing
+//@ ensures result != nil && uf("ctx.val", any, result, key) == val && forallA(k, any, k != key ==> uf("ctx.val", any, result, k) == uf("ctx.val", any, parent, k))
+
+//@ external context.(Context).Value
+//@ modifies nothing
+//@ ensures result == uf("ctx.val", any, self, key)
+
+// ctxos(c): the OS a builtin will find in context c (nil interface when there is none).
+//@ spec ctxos(c) = uf("ctx.val", any, c, any(osKey))
+//@ spec hasos(c) = ctxos(c) != nil && implements(ctxos(c), OS)
+
+//@ func WithOS
+//@ props C12
+//@ modifies nothing
+//@ ensures[C12.withos] result != nil && ctxos(result) == any(osObj)
+//@ ensures[C12.withos.others] forallA(k, any, k != any(osKey) ==> uf("ctx.val", any, result, k) == uf("ctx.val", any, ctx, k))
+
+//@ func GetOS
+//@ props C12
+//@ requires ctx != nil
+//@ modifies nothing
+//@ ensures[C12.getos] result1 == hasos(ctx) && (result1 ==> any(result0) == ctxos(ctx)) && (!result1 ==> result0 == nil)
+
+// GetDefaultOS: the context's OS when it carries one; only otherwise a SimpleOS (the real operating system).
+//@ func GetDefaultOS
+//@ props C12
+//@ requires ctx != nil
+//@ ensures[C12.defaultos] hasos(ctx) ==> any(result) == ctxos(ctx)
+//@ ensures[C12.defaultos.fallback] !hasos(ctx) ==> typeof(result) == *SimpleOS && fresh(result)
